@@ -207,6 +207,7 @@ _add(Prop(
                  "add_amp_general assumes signed(s) + offset is representable in the Signed companion type"],
     rules=[
         {"match": r"s_(i32|u32|i48|i64|u48|u64|f64)::mul_amp_general", "tier": "thorough", "timeout": 2400},
+        {"match": r"near_unity_gain::u48_sample", "tier": "thorough", "timeout": 2400},
         {"match": r"frame_u8_n(8|31|32)::scale_ops", "tier": "thorough", "timeout": 1200},
         {"match": r"frame_(i48|i64|u48|u64)_n2::scale_ops", "tier": "thorough", "timeout": 1200},
         {"match": r"frame_f64_n2::ops|mono::mono_(u64|i64|f64)", "tier": "thorough", "timeout": 2400},
@@ -321,7 +322,7 @@ _add(Prop(
                "NoiseSimplex::next_sample}", "dasp_signal::ops::f64::{sin, floor}"],
     bounds="one frame from ANY stored phase in [0,1) (hook Phase::verif_from_state) and any finite step >= 0; saw, square "
            "formulas and sine's call structure at every phase, sine's argument 2*pi*p at 8 concrete phases (every phase: "
-           "thorough); ConstHz step at 6 concrete (hz, rate) pairs (any pair: thorough); Hz pulls: 3 frames; noise: range "
+           "thorough); ConstHz step at 6 concrete (hz, rate) pairs (a symbolic pair - one f64 division on each side of the comparison - did not finish in 3000 s); Hz pulls: 3 frames; noise: range "
            "and no-panic for EVERY u64 seed (2 frames), clone/restart/shifted-seed agreement and the hash value at 6 "
            "concrete seeds incl. u64::MAX; simplex: any stored phase in [0, 65536)",
     outside="(the phase ADVANCE 'next = (phase + step) wrapped into [0,1)' is NOT decided by the Kani harnesses - this "
@@ -334,7 +335,7 @@ _add(Prop(
     stubs=["dasp_signal::ops::f64::sin -> recording marker returning a harness-chosen value in [-1,1] (sine_structure, "
            "sine_argument_any_phase)"],
     assumptions=["|sin(x)| <= 1 (CBMC's own model, or the marker's contract)"],
-    rules=[{"match": r"sine_argument_any_phase|const_hz_step_any|coarse_amplitude_bound_any_phase", "tier": "thorough", "timeout": 3000}],
+    rules=[{"match": r"sine_argument_any_phase|coarse_amplitude_bound_any_phase", "tier": "thorough", "timeout": 3000}],
     extra_engines=["phase_smt"],
     design_ref="DESIGN.md §4 C17",
     claim="The solver shows for every finite non-negative step that the phase starts at 0, every yielded phase is the "
